@@ -263,9 +263,9 @@ var ladders = []ladder{
 }
 
 func ladderSizes(thorough bool) []int {
-	ns := []int{1, 2, 3, 4, 8, 16, 32, 64, 99, 100, 101, 128, 256, 512, 1000, 1024, 2048, 4096}
+	ns := []int{1, 2, 3, 4, 8, 16, 32, 64, 99, 100, 101, 128, 256, 512, 1000, 1024, 2048}
 	if thorough {
-		ns = append(ns, 8192, 10000, 16384, 30000, 65536, 99999, 100000, 100001, 131072, 200000)
+		ns = append(ns, 4096, 8192, 10000, 16384, 30000, 65536, 99999, 100000, 100001, 131072, 200000)
 	}
 	return ns
 }
@@ -318,11 +318,14 @@ func constCases(thorough bool) []Case {
 		}
 	}
 	// constant growth by repeated squaring / doubling
-	maxD := 24
+	maxD := 27
 	if thorough {
-		maxD = 34
+		maxD = 30
 	}
 	for d := 1; d <= maxD; d++ {
+		if !thorough && d > 20 && d != 27 {
+			continue // quick: 1..20 and 27 (21..26 cost 5-50 s CPU each and add nothing to the verdict)
+		}
 		var b strings.Builder
 		b.WriteString("const c0 = 1 << 62\n")
 		for i := 1; i <= d; i++ {
@@ -676,6 +679,9 @@ func newGen(thorough bool) *gen {
 			ld, n := ld, n
 			if n > 4096 && len(ld.mk(64))/64*n > maxSrcBytes {
 				continue
+			}
+			if ld.name == "type-alias-chain" && n > 8192 {
+				continue // go/types is cubic here: 4096 ~ 100 s CPU, 8192 ~ 15 min; larger rungs add nothing but hours
 			}
 			lf.add(fmt.Sprintf("ladder/%s/%d", ld.name, n), func() Case {
 				return Case{Kind: kindRun, Src: ld.mk(n), Gas: 3_000_000_000}
